@@ -9,7 +9,9 @@ package main
 
 import (
 	"encoding/json"
+
 	"fmt"
+	"github.com/enbility/spine-go/model"
 	"os"
 	"path/filepath"
 	"sort"
@@ -113,6 +115,10 @@ func buildWitnesses() []witness {
 			in(validMessage(r, kNotifyLimits, 1, 21)), in(validMessage(r, kReplyForeignFunction, 1, 22)), in(validMessage(r, kReplyLimits, 1, 23)), probe)},
 		{"failed-notify-with-foreign-selector", "", append(append([]hx.Zs{}, discovered...), in(validMessage(r, kNotifyFailedForeignSelector, 1, 30)),
 			in(validMessage(r, kNotifyLimitsForeignSelector, 1, 31)), probe)},
+		{"payload-with-emptied-timeperiod", "", sweepWitness("loadControlLimitListData", func(t map[string]any) {
+			at(t, cmdPath+".loadControlLimitListData.loadControlLimitData.0")["timePeriod"] = map[string]any{}
+		})},
+		{"characteristic-data-reply-notify-read", "", sweepWitness("electricalConnectionCharacteristicData", nil)},
 		{"reply-with-entity-entry-without-description", "", []hx.Zs{conn, in(discEdit(func(d map[string]any) {
 			ei := d["entityInformation"].([]any)
 			d["entityInformation"] = []any{ei[0], map[string]any{}, ei[1]}
@@ -278,4 +284,25 @@ func reabstract(in, out, note string) {
 	if err := os.WriteFile(out, o, 0o644); err != nil {
 		panic(err)
 	}
+}
+
+// sweepWitness: the sweep's base messages of one function (optionally the first one edited) as opaque payloads
+func sweepWitness(fn string, f func(root map[string]any)) []hx.Zs {
+	initSweep()
+	h := []hx.Zs{{opConnect, 1},
+		inboundOp(1, encode(header(faddr(1, nm0, 0), faddr(0, nm0, 0), 1, 1, model.CmdClassifierTypeReply, false),
+			model.CmdType{NodeManagementDetailedDiscoveryData: sweepTree(1)}))}
+	for _, sf := range sweepFns {
+		if sf.name != fn {
+			continue
+		}
+		ctr := uint64(800000)
+		for i, m := range sweepMessages(sf, 1, &ctr) {
+			if i == 0 && f != nil {
+				m = edit(m, f)
+			}
+			h = append(h, opaqueOp(1, m), hx.Zs{opProbe, 1, int64(810000 + i)})
+		}
+	}
+	return h
 }
